@@ -187,6 +187,11 @@ func vfAgreement(cfg vfCfg, p *vfPair, resumed bool) []string {
 	if cs.ALPN != ss.ALPN {
 		bad = append(bad, fmt.Sprintf("ALPN: client %q server %q", cs.ALPN, ss.ALPN))
 	}
+	// "they hold the same session": where both ends name the session (the server drops the id when a client certificate
+	// was used, a side without a store may report none), they name the same one
+	if cs.SessionID != "" && ss.SessionID != "" && cs.SessionID != ss.SessionID {
+		bad = append(bad, fmt.Sprintf("session id: client %s server %s", cs.SessionID, ss.SessionID))
+	}
 	if cs.SRTP != ss.SRTP {
 		bad = append(bad, fmt.Sprintf("SRTP profile: client %d server %d", cs.SRTP, ss.SRTP))
 	}
@@ -237,6 +242,14 @@ func vfC01Case(t *testing.T, res *vfResult, idx int, suite vfSuiteInfo) {
 		n := vfNewNet()
 		if sched == 1 {
 			mask.Install(n)
+		}
+		if round == 1 && cfg.Store && idx%3 == 2 {
+			// the server has lost its sessions (restart, eviction): the client offers one the server does not know
+			// and the second connection is a full handshake with a new session
+			for k := range sStore.Snapshot() {
+				_ = sStore.Del([]byte(k))
+			}
+			res.Count("second_connections_after_server_forgot", 1)
 		}
 		var co []ClientOption
 		var so []ServerOption
